@@ -61,6 +61,19 @@ reg("C01", "rules_c01", "check_C01", "other",
     "Inductive constructor discipline. R1 (N/S): every aggregate site is one of the closed set k1 EFT primitive (by conformance), k2 zero low word, k3 constant pair valid in exact rationals / explicit non-finite marker, k4 word-wise negation, k5 dominated by no_overlap(hi,lo)==true, k6 hi rounded under modf(lo).0==0, k7 both words scaled alike; every TwoFloat constant and table entry is valid (exact rationals). R1b: no in-place word stores. R2: functions return only parameters/constants/classified aggregates/crate calls. R3: fields are not public, unsafe is forbidden. This decides WHERE validity is created and that there is nowhere else; it does not re-prove Fast2Sum's ordering precondition at each call site (numeric, not decided).",
     COMMON_ASSUME + ["Fast2Sum ordering preconditions at call sites and subnormal low words in k6/k7 are not decided"])
 
+reg("C06", "rules_base", "check_C06", "other",
+    "instances = NaN-screen obligations (2 functions x 4 words), decision tables of eq / partial_cmp / mixed f64 comparisons and their mirrors / min / max / sign queries",
+    "R12 (N): with any one of the four words NaN, eq returns false and partial_cmp None on every path (all outcome classes enumerated). R12b-d (S, semantic decision-tree equivalence over order relations): eq, partial_cmp, TwoFloat<->f64 comparisons in both orders (mirror = reversed), min/max, abs, copysign, signum, is_sign_* equal their reference tables. That lexicographic comparison of words equals comparison of exact values rests on normalisation (C01) and is not re-proved.",
+    COMMON_ASSUME + ["lexicographic (hi, lo) order == order of exact values for normalised operands (numeric lemma, not decided)"])
+reg("C07", "rules_base", "check_C07", "other",
+    "instances = is_valid, two TryFrom impls, four From<TwoFloat> projections, the no_overlap predicate",
+    "R17 (S): is_valid == finite && finite && no_overlap(hi, lo); TryFrom gates on no_overlap of exactly the words it stores, untouched and in order; projections return (hi, lo). R18 (S*): no_overlap's decision tree is semantically equal to the reference form of Definition 1.4 whose offsets are derived from the binary64 format (hand proof in DESIGN B.1 covers all 2^128 pairs). An equivalent re-implementation in another spelling would be reported as reference-form-lost.",
+    COMMON_ASSUME + ["DESIGN appendix B.1 (hand proof of the reference form)"])
+reg("C08", "rules_base", "check_C08", "other",
+    "instances = floor, ceil, trunc, round, fract decision tables; direction rule for floor/ceil",
+    "R19 (S*): each rounding function's decision tree is semantically equal to the reviewed case table (DESIGN B.2: which word is rounded, in which direction, how the pair is rebuilt). R20 (N): floor applies only libm::floor to a word, ceil only libm::ceil.",
+    COMMON_ASSUME + ["DESIGN appendix B.2 (hand case analysis: each table cell equals the exact floor/ceil/round/fract)"])
+
 def main(argv):
     if not argv:
         print('usage: check <ID>|all [--tier quick|thorough]'); return 2
